@@ -74,6 +74,11 @@ def _bool_of(expr, atoms):
     if isinstance(expr, ast.UnaryOp) and isinstance(expr.op, ast.Not):
         f = _bool_of(expr.operand, atoms)
         return lambda env: not f(env)
+    # `m is None` / `m is not None` on a match object: the falsity / truth of m (a match object is always truthy)
+    if isinstance(expr, ast.Compare) and len(expr.ops) == 1 and isinstance(expr.ops[0], (ast.Is, ast.IsNot)) and isinstance(expr.comparators[0], ast.Constant) \
+            and expr.comparators[0].value is None and norm(expr.left) in atoms:
+        a0 = atoms[norm(expr.left)]
+        return (lambda env: not env[a0]) if isinstance(expr.ops[0], ast.Is) else (lambda env: env[a0])
     key = norm(expr)
     if key in atoms:
         a = atoms[key]
